@@ -356,6 +356,117 @@ theorem asmW_perm (P : AsmParams) {g g' : Genotype} (h : g.Perm g') : asmW P g =
   unfold asmW
   rw [C04.lik_perm_haps P.reads P.nb h, assemblePrior_dosage_perm P.U P.F h]
 
+/-! ### the literal mutation kernel of the model -/
+
+/-- the option of `base_step` that proposes allele `a` at `(h, j)` -/
+def baseOpt (P : AsmParams) (g : Genotype) (h j a : ℕ) : MoveOption :=
+  { target := setAllele g h j a,
+    R := asmW P (setAllele g h j a) / asmW P g,
+    Q := (copies (setAllele g h j a) h : ℚ) / (copies g h : ℚ) }
+
+theorem baseStepOptions_eq (P : AsmParams) (g : Genotype) (h j nA : ℕ) :
+    baseStepOptions P g h j nA
+      = ((List.range nA).filter (· ≠ alleleAt g h j)).map (baseOpt P g h j) := rfl
+
+theorem baseStepOptions_length (P : AsmParams) (g : Genotype) (h j nA : ℕ) (hc : alleleAt g h j < nA) :
+    (baseStepOptions P g h j nA).length = nA - 1 := by
+  rw [baseStepOptions_eq, List.length_map]
+  have : ∀ (n c : ℕ), c < n → ((List.range n).filter (· ≠ c)).length = n - 1 := by
+    intro n
+    induction n with
+    | zero => intro c hc; omega
+    | succ n ih =>
+      intro c hc
+      rw [List.range_succ, List.filter_append, List.length_append]
+      by_cases e : c = n
+      · subst e
+        have h1 : (List.range c).filter (· ≠ c) = List.range c := by
+          apply List.filter_eq_self.mpr
+          intro x hx; have := List.mem_range.mp hx; simp; omega
+        rw [h1]; simp
+      · have hc' : c < n := by omega
+        rw [ih c hc']
+        have : ([n].filter (· ≠ c)).length = 1 := by simp [Ne.symm e]
+        rw [this]; omega
+  exact this nA _ hc
+
+theorem mem_baseStepOptions (P : AsmParams) (g : Genotype) (h j nA a : ℕ) (ha : a < nA)
+    (hne : a ≠ alleleAt g h j) : baseOpt P g h j a ∈ baseStepOptions P g h j nA := by
+  rw [baseStepOptions_eq, List.mem_map]
+  exact ⟨a, by simp [List.mem_filter, ha, hne], rfl⟩
+
+theorem setAllele_split (g : Genotype) (h j a : ℕ) (hh : h < g.length) :
+    g = g.take h ++ g[h] :: g.drop (h + 1) ∧
+    setAllele g h j a = g.take h ++ (g[h].set j a) :: g.drop (h + 1) := by
+  constructor
+  · rw [List.getElem_cons_drop hh, List.take_append_drop]
+  · unfold setAllele
+    rw [List.getD_eq_getElem?_getD, List.getElem?_eq_getElem hh]
+    simp only [Option.getD_some]
+    rw [List.set_eq_take_append_cons_drop, if_pos hh]
+
+
+theorem getD_row (g : Genotype) (h : ℕ) (hh : h < g.length) : g.getD h [] = g[h] := by
+  simp [List.getD_eq_getElem?_getD, hh]
+
+theorem getD_row_set (g : Genotype) (h : ℕ) (hh : h < g.length) (x : Hap) : (g.set h x).getD h [] = x := by
+  simp [List.getD_eq_getElem?_getD, hh]
+
+theorem alleleAt_setAllele (g : Genotype) (h j a : ℕ) (hh : h < g.length) (hj : j < (g[h]).length) :
+    alleleAt (setAllele g h j a) h j = a := by
+  unfold alleleAt setAllele
+  rw [getD_row g h hh, getD_row_set g h hh]
+  simp [List.getD_eq_getElem?_getD, hj]
+
+theorem setAllele_setAllele (g : Genotype) (h j a : ℕ) (hh : h < g.length) (hj : j < (g[h]).length) :
+    setAllele (setAllele g h j a) h j (alleleAt g h j) = g := by
+  unfold setAllele alleleAt
+  rw [getD_row g h hh, getD_row_set g h hh]
+  have e2 : (g[h]).getD j 0 = (g[h])[j] := by simp [List.getD_eq_getElem?_getD, hj]
+  rw [e2, List.set_set, List.set_set, List.set_getElem_self, List.set_getElem_self]
+
+/-- **mutation move (literal kernel)**: for the option list of `base_step` at slot `(h, j)`, the option
+    that proposes allele `a` and the option of the resulting state that proposes the old allele back
+    balance w.r.t. `asmW^T · factProd` on ordered genotypes; both lists have `n_alleles − 1` options,
+    each proposed with probability `1/(n_alleles − 1)` and accepted with `min 1 (R^T · Q)`. -/
+theorem base_step_literal_db (P : AsmParams) (T : ℝ) (g : Genotype) (h j nA a : ℕ)
+    (hh : h < g.length) (hj : j < (g[h]).length) (ha : a < nA) (hc : alleleAt g h j < nA)
+    (hne : a ≠ alleleAt g h j)
+    (pg : 0 < asmW P g) (pg' : 0 < asmW P (setAllele g h j a)) :
+    let g' := setAllele g h j a
+    let o := baseOpt P g h j a
+    let o' := baseOpt P g' h j (alleleAt g h j)
+    o ∈ baseStepOptions P g h j nA ∧ o' ∈ baseStepOptions P g' h j nA ∧ o.target = g' ∧ o'.target = g ∧
+    (((asmW P g : ℚ) : ℝ) ^ T * (factProd g : ℝ))
+        * ((1 / ((baseStepOptions P g h j nA).length : ℝ)) * min 1 (((o.R : ℚ) : ℝ) ^ T * ((o.Q : ℚ) : ℝ)))
+      = (((asmW P g' : ℚ) : ℝ) ^ T * (factProd g' : ℝ))
+        * ((1 / ((baseStepOptions P g' h j nA).length : ℝ)) * min 1 (((o'.R : ℚ) : ℝ) ^ T * ((o'.Q : ℚ) : ℝ))) := by
+  intro g' o o'
+  have hcur' : alleleAt g' h j = a := alleleAt_setAllele g h j a hh hj
+  have hback : setAllele g' h j (alleleAt g h j) = g := setAllele_setAllele g h j a hh hj
+  refine ⟨mem_baseStepOptions P g h j nA a ha hne, ?_, rfl, hback, ?_⟩
+  · exact mem_baseStepOptions P g' h j nA _ hc (by rw [hcur']; exact Ne.symm hne)
+  · rw [baseStepOptions_length P g h j nA hc,
+      baseStepOptions_length P g' h j nA (by rw [hcur']; exact ha)]
+    obtain ⟨s1, s2⟩ := setAllele_split g h j a hh
+    have hx : g.getD h [] = g[h] := getD_row g h hh
+    have hg' : g' = g.take h ++ (g[h].set j a) :: g.drop (h + 1) := s2
+    have key := base_step_kernel_db P T (nA - 1) (g.take h) (g.drop (h + 1)) g[h] (g[h].set j a)
+      (by rw [← s1]; exact pg) (by rw [← hg']; exact pg')
+    have cx : @List.count Hap instBEqOfDecidableEq g[h] (g.take h ++ g[h] :: g.drop (h + 1)) = copies g h := by
+      rw [copies_eq_count, hx, ← s1]
+    have hy : g'.getD h [] = g[h].set j a := by
+      show (setAllele g h j a).getD h [] = _
+      unfold setAllele; rw [hx]; exact getD_row_set g h hh _
+    have cy : @List.count Hap instBEqOfDecidableEq (g[h].set j a)
+        (g.take h ++ (g[h].set j a) :: g.drop (h + 1)) = copies g' h := by
+      rw [copies_eq_count, hy, ← hg']
+    rw [cx, cy, ← s1, ← hg'] at key
+    simp only [o, o', baseOpt, hback]
+    push_cast
+    exact key
+
+
 /-! ### the literal interval kernels of the model
 
 `intervalStepOptions` is the model of `interval_step`: segment labels of the stored rows
